@@ -72,7 +72,11 @@ func c10Case(c *core.Ctx) {
 		warm = &MRun{Model: model, N: 1, T: wT, Sets: []PSet{ps}, Inputs: [][][]float64{GenInputs(model, c.R, wT, ps)}}
 	}
 	c.Begin(map[string]interface{}{"model": model, "run": run, "warmup_for_hot_states": warm, "chained": chained})
-	c.Class(fmt.Sprintf("%s/hot%v/chained%v/closure%v", model, hot, chained, closure))
+	maxRain := 0.0
+	for _, v := range in[0] {
+		maxRain = math.Max(maxRain, v)
+	}
+	c.Class(fmt.Sprintf("%s/hot%v/chained%v/closure%v/storm%v/T%d", model, hot, chained, closure, maxRain >= 200, T/100))
 	// initial states
 	if hot {
 		wo, err := Execute(warm)
